@@ -120,6 +120,8 @@ UNIVERSE = [
     ("intenum-ONE", lambda: PyLevel.ONE), ("strenum-RED", lambda: StrColor.RED), ("strenum-MAUVE", lambda: StrColor.MAUVE),
     ("decimal-3", lambda: Decimal("3")), ("decimal-1.5", lambda: Decimal("1.5")), ("decimal-almost-1", lambda: Decimal("0.9999999999999999999999999999")),
     ("fraction-7/2", lambda: Fraction(7, 2)), ("fraction-3/1", lambda: Fraction(3, 1)),
+    ("decimal-nan", lambda: Decimal("NaN")), ("decimal-inf", lambda: Decimal("-Infinity")), ("decimal-1e400", lambda: Decimal("1e400")),
+    ("bytes-nan", lambda: b"nan"),
     ("cancellederror", lambda: asyncio.CancelledError()), ("generatorexit", lambda: GeneratorExit("done")),
     ("keyboardinterrupt", lambda: KeyboardInterrupt()),
     ("dict-typeobj-O", lambda: {"_typename": TypeObjRef("O"), "x": 1, "y": "q"}),
